@@ -130,7 +130,8 @@ func (w *c18World) stale(kind string) *x509.RevocationList {
 }
 
 var c18Events = []string{"fetch", "server-publishes-newer", "cache:=fresh(old version)", "cache:=fresh-with-delta", "cache:=base-expired", "cache:=delta-expired", "cache:=both-expired", "cache:=base-without-nextupdate",
-	"cache:=empty", "next-get-fails", "next-set-fails", "next-base-download:transport-error", "next-base-download:404", "next-base-download:garbage", "next-delta-download-fails@0", "next-delta-download-fails@1", "next-delta-download-fails@all"}
+	"cache:=empty", "next-get-fails", "next-set-fails", "next-base-download:transport-error", "next-base-download:404", "next-base-download:garbage", "next-delta-download-fails@0", "next-delta-download-fails@1", "next-delta-download-fails@all",
+	"cache:=empty(miss reported as a wrapped ErrCacheMiss)", "next-base-download:caller-cancels-when-it-has-been-answered"}
 
 type c18Scenario struct {
 	cache   bool
@@ -207,6 +208,8 @@ func (s *c18Scenario) body(c *mc.Ctx) {
 	deltaFault := map[int]bool{}
 	deltaHeavy := false
 	var reqs []string
+	missWrapped := false
+	var cancelFetch context.CancelFunc // cancels the context of the fetch in progress
 	tr := &netsim.Transport{}
 	tr.Handler = func(r *netsim.Request, raw *http.Request) netsim.Answer {
 		reqs = append(reqs, r.URL)
@@ -215,6 +218,13 @@ func (s *c18Scenario) body(c *mc.Ctx) {
 			f := baseFault
 			baseFault = ""
 			switch f {
+			case "caller-cancels-when-it-has-been-answered":
+				d, _ := w.base(version, s.shape)
+				return netsim.Answer{Status: 200, Body: d, After: func() {
+					if cancelFetch != nil {
+						cancelFetch()
+					}
+				}}
 			case "transport-error":
 				return netsim.Answer{Err: netsim.ErrTransport}
 			case "404":
@@ -258,6 +268,9 @@ func (s *c18Scenario) body(c *mc.Ctx) {
 				return nil, errors.New("netsim: cache read failed")
 			}
 			if entry == nil {
+				if missWrapped {
+					return nil, fmt.Errorf("netsim cache: entry evicted: %w", corecrl.ErrCacheMiss)
+				}
 				return nil, corecrl.ErrCacheMiss
 			}
 			lastGot = entry.b
@@ -292,6 +305,10 @@ func (s *c18Scenario) body(c *mc.Ctx) {
 			version++
 		case ev == "cache:=empty":
 			entry = nil
+			missWrapped = false
+		case ev == "cache:=empty(miss reported as a wrapped ErrCacheMiss)":
+			entry = nil
+			missWrapped = true // a miss is a miss however the cache words it (errors.Is)
 		case ev == "cache:=fresh(old version)":
 			entry = newC18Bundle(&corecrl.Bundle{BaseCRL: w.stale("old-base-fresh")}, true, "old fresh base")
 		case ev == "cache:=fresh-with-delta":
@@ -341,9 +358,22 @@ func (s *c18Scenario) body(c *mc.Ctx) {
 			heavyDelta := deltaHeavy
 			if proceed {
 				p.outcome = "download"
+				cancelAfterBase := baseFault == "caller-cancels-when-it-has-been-answered"
+				httpLocs := 0
+				for _, loc := range s.shape.locations {
+					if !strings.HasPrefix(loc, "https://") {
+						httpLocs++
+					}
+				}
 				switch {
-				case baseFault != "":
+				case baseFault != "" && !cancelAfterBase:
 					p = pred{outcome: "error", why: "base download failed: " + baseFault, delta: -1}
+				case s.shape.malformed:
+					p = pred{outcome: "error", why: "malformed freshest-CRL extension", delta: -1}
+				case cancelAfterBase && len(s.shape.locations) > 0:
+					// the base arrived, then the caller gave up: the advertised delta can no longer be obtained -> an error, never a base-only bundle
+					p = pred{outcome: "error", why: "context cancelled between the base and the delta download: the advertised delta was not obtained", delta: -1}
+					_ = httpLocs
 				case s.shape.malformed:
 					p = pred{outcome: "error", why: "malformed freshest-CRL extension", delta: -1}
 				case len(s.shape.locations) > 0:
@@ -390,7 +420,10 @@ func (s *c18Scenario) body(c *mc.Ctx) {
 						pan = r
 					}
 				}()
-				b, err = f.Fetch(context.Background(), c18Base)
+				fctx, cancel := context.WithCancel(context.Background())
+				cancelFetch = cancel
+				defer func() { cancel(); cancelFetch = nil }()
+				b, err = f.Fetch(fctx, c18Base)
 				return
 			}()
 			// faults that were armed for the delta but not consumed stay armed (one-shot per request); normalise
@@ -508,7 +541,7 @@ func (s *c18Scenario) body(c *mc.Ctx) {
 			// one-shot faults of sources that were not contacted stay armed; that is the same in model and implementation
 			_ = prevEntry
 		}
-		c.Statef("v%d entry=%s getFault=%v setFault=%v baseFault=%q deltaFaults=%d", version, descOf(entry), getFault, setFault, baseFault, len(deltaFault))
+		c.Statef("v%d entry=%s getFault=%v setFault=%v baseFault=%q deltaFaults=%d wrapped=%v", version, descOf(entry), getFault, setFault, baseFault, len(deltaFault), missWrapped && entry == nil)
 	}
 }
 
